@@ -10,21 +10,6 @@ import PandoraModel.Properties.C13FlipFlags
 namespace Pandora.C13
 open Pandora Pandora.Locality Pandora.MC
 
-theorem cfgOf_congr (K : RunCfg) {x x' : MC.Input} (hp : paramsOf x' = paramsOf x)
-    (h1 : gminOf x' = gminOf x) (h2 : gmaxOf x' = gmaxOf x) : cfgOf K x' = cfgOf K x := by
-  have hsp : x'.sp = x.sp := congrArg McParams.sp hp
-  unfold gminOf at h1
-  unfold gmaxOf at h2
-  unfold cfgOf nOf gminOf gmaxOf
-  rw [hp, h1, h2, hsp]
-
-theorem paramsOf_swap_congr {x x' : MC.Input} (hp : paramsOf x' = paramsOf x) :
-    paramsOf (swapInput x') = paramsOf (swapInput x) := by
-  simp only [paramsOf, McParams.mk.injEq] at hp
-  obtain ⟨p1, p2, p3, p4, p5, p6, p7, p8, p9⟩ := hp
-  simp only [paramsOf, swapInput, McParams.mk.injEq]
-  exact ⟨p1, p2, p3, p7, p8, p9, p4, p5, p6⟩
-
 /-- `xF` is the pair `x` listed bottom-up, with the same configuration and the same global disparity ranges -/
 structure FlipRun (x xF : MC.Input) : Prop where
   params : paramsOf xF = paramsOf x
